@@ -191,8 +191,17 @@ def fam_guards(rng):
         ops += writer_ops(rng, t, 0, 1)   # a writer on the same thread as the guards
     order = list(range(ng))
     rng.shuffle(order)
+    # more loads while the old guards are alive: slots emptied by a writer are handed out again
+    if rng.random() < 0.6:
+        ops += writer_ops(rng, t, 0, 1)
+        for i in range(rng.randrange(1, 10)):
+            ops.append({"op": "load", "c": 0, "g": 130 + i})
     for i in order:
-        ops += [{"op": "deref_g", "g": 100 + i}, {"op": "drop_g", "g": 100 + i}]
+        ops.append({"op": "deref_g", "g": 100 + i})
+        if rng.random() < 0.4:
+            ops += [{"op": "into_inner", "g": 100 + i, "h": 150 + i}, {"op": "deref_h", "h": 150 + i}]
+        else:
+            ops.append({"op": "drop_g", "g": 100 + i})
     th = [ops, writer_ops(rng, 2, 0, rng.randrange(1, 4))]
     if rng.random() < 0.4:
         # another thread drops some of the guards instead (moved guards)
